@@ -3,7 +3,9 @@
 The generated part list *is* the expected parse result.
 """
 BCHARS = "0123456789abcdefghijklmnopqrstuvwxyzABCDEFGHIJKLMNOPQRSTUVWXYZ'()+_,-./:=?"
-NAME_ALPHA = ["a", "b", "name", "x1", " ", ";", "=", "%", "&", "'", "é", "中", "-", ".", "[]", "<", ","]
+NAME_ALPHA = ["a", "b", "name", "x1", " ", ";", "=", "%", "&", "'", "é", "中", "-", ".", "[]", "<", ",",
+              # not line breaks of the multipart framing (only CR and LF are): ordinary characters of a name
+              "\x0b", "\x0c", "\x1c", "\x1e", "\u0085", "\u2028", "\u2029"]
 TEXT_UNI = ["é", "中", "€", "\U0001f600", " ", "\x00", "\x7f", " "]
 
 
@@ -104,6 +106,9 @@ def gen_form(t, max_parts=4, file_bias=2, big_file=None, allow_pre_epi=True):
                 p["ctype"] = t.choice(["text/plain", "application/octet-stream", "image/png; x=1", "a/b"])
             if t.draw(4) == 0:
                 p["extra"] = ("X-Extra", t.choice(["1", "v; w", "é", "a:b"]))
+            elif t.draw(8) == 0:
+                # a header line that is not UTF-8 (a raw Latin-1 byte): it alone falls back to latin-1, the other lines stay UTF-8
+                p["extra_raw"] = ("X-Legacy", b"caf\xe9 r\xe9sum\xe9")
             p["content"] = gen_content(t, boundary, text=False, big=(big_file if (big_file and i == 0) else None))
         else:
             p = {"kind": "field", "name": name, "content": gen_content(t, boundary, text=True), "extra": None}
@@ -148,6 +153,8 @@ def encode_form(form):
         out.append(b"--" + b + b"\r\n")
         for k, v in part_headers(p):
             out.append(("%s: %s\r\n" % (k, v)).encode("utf-8"))
+        if p.get("extra_raw"):
+            out.append(p["extra_raw"][0].encode("ascii") + b": " + p["extra_raw"][1] + b"\r\n")
         out.append(b"\r\n")
         out.append(p["content"])
         out.append(b"\r\n")
@@ -190,6 +197,8 @@ def expected_items(form):
             hs = {}
             for k, v in part_headers(p):
                 hs[k.lower()] = v
+            if p.get("extra_raw"):
+                hs[p["extra_raw"][0].lower()] = p["extra_raw"][1].decode("latin-1")
             out.append((p["name"], ("file", p["filename"], hs, p["content"])))
     return out
 
@@ -247,6 +256,8 @@ def content_spans(form):
         pos += 2 + len(b) + 2
         for k, v in part_headers(p):
             pos += len(("%s: %s\r\n" % (k, v)).encode("utf-8"))
+        if p.get("extra_raw"):
+            pos += len(p["extra_raw"][0]) + 2 + len(p["extra_raw"][1]) + 2
         pos += 2
         spans.append((p["kind"], pos, pos + len(p["content"])))
         pos += len(p["content"]) + 2
